@@ -12,8 +12,21 @@ KINDS = ["permutations", "combinations", "combinations_with_replacement", "produ
 
 
 def comb_event(pp, tid, A, kind, size, via):
-    a = anngen.build(pp, A)
     kw = {"repeat" if kind == "product" else "size": None if size == -1 else size}
+    a = anngen.build(pp, A)
+    if via == "method" and A["internal"] and len(tid) % 2:
+        # the object was already expanded BEFORE it received its last residue modification (expand, edit, expand):
+        # what is judged is the expansion of the object as it is now
+        import copy
+        from peptacular.proforma.proforma_dataclasses import Mod
+        A0 = copy.deepcopy(A)
+        e = A0["internal"][-1]
+        last = e["mods"].pop()
+        if not e["mods"]:
+            A0["internal"].pop()
+        a = anngen.build(pp, A0)
+        call(lambda: getattr(a, kind)(**kw))
+        a.add_internal_mod(e["i"], [Mod(anngen.pyval(last["v"]), last["m"])], append=True)
 
     def f():
         if via == "method":
